@@ -26,12 +26,12 @@ class Monitors(ApplyMonitors, WireMonitors, MapMonitors, MiscMonitors, MonBase):
         sim = self.sim
         self.ticks += 1
         if "C10" in self.on:
-            self.c10_check(ev)
+            self.guard("C10", self.c10_check, ev)
         if "C20" in self.on and self.ticks % 4 == 0 and sim.auth.up:
             for cid in sorted(sim.clients):
                 c = sim.clients[cid]
                 if c.up and c.joined and c.doc is not None and c.doc is not sim.auth.doc:
-                    self.on_pair(c.doc, sim.auth.doc, "client-vs-authority")
+                    self.guard("C20", self.on_pair, c.doc, sim.auth.doc, "client-vs-authority")
                     break
         if "C20" in self.on and ev["k"] == "reload" and out == "ok":
             c = sim.clients[ev["c"]]
